@@ -45,7 +45,8 @@ def act_ok(a):
 
 def loss_out(t, o):
     """a read with this outcome never delivers bytes"""
-    return o not in ("data", "more", "none") and not (t == "sim" and o == "empty")
+    from harness.libfakes import DATA_LIKE
+    return o not in DATA_LIKE and o != "none" and not (t == "sim" and o == "empty")
 
 
 def sets_loss(t, o):
@@ -58,61 +59,90 @@ def _rows(lines):
     return "".join(f"  {term}{',' if i + 1 < len(lines) else ''}  -- {cm}\n" for i, (term, cm) in enumerate(lines))
 
 
-def compute_total(L, emap, after, alive):
+class Tables:
+    """the observed tables with the control-buffer dimension folded in (c = 0 for every transport, c = 1, 2 for the Telnet ones)"""
+
+    def __init__(self, L, emap, after, alive, emapC=None, afterC=None, aliveC=None):
+        self.L, self.emap, self.after, self.alive = L, emap, after, alive
+        self.emapC, self.afterC, self.aliveC = emapC or {}, afterC or {}, aliveC or {}
+
+    def ctrls(self, t):
+        return (0, 1, 2) if t in self.L.TELNETS else (0,)
+
+    def E(self, c, t, m, o):
+        if c and t in self.L.TELNETS and (c, t, m, o) in self.emapC:
+            return self.emapC[(c, t, m, o)]
+        return self.emap.get((t, m, o), "na")
+
+    def A(self, c, t, lm, lo, m, o):
+        if c and t in self.L.TELNETS:
+            return self.afterC.get((c, t, lm, lo, m, o), self.E(c, t, m, o))
+        return self.after.get((t, lm, lo, m, o), self.E(0, t, m, o))
+
+    def AL(self, c, t, lm, lo):
+        if c and t in self.L.TELNETS:
+            return self.aliveC.get((c, t, lm, lo), "na")
+        return self.alive.get((t, lm, lo), "na")
+
+
+def compute_total(L, emap, after, alive, emapC=None, afterC=None, aliveC=None):
     """python twin of ScrapliModel/Loss.lean `mapTotalB` / `aliveTotalB` (Lean re-decides both; a difference breaks the build).
     returns (total transports, alive-total transports, bad entries)"""
     from harness.libfakes import short
+    T = Tables(L, emap, after, alive, emapC, afterC, aliveC)
     total, alive_total, bad = [], [], []
-
-    def E(t, m, o):
-        return short(emap.get((t, m, o), "na"))
-
-    def A(t, lm, lo, m, o):
-        return short(after.get((t, lm, lo, m, o), emap.get((t, m, o), "na")))
     for t in L.TRANSPORTS:
         ok = True
-        for m in L.METHODS:
-            for o in L.OUTCOMES:
-                if not L.in_domain(t, m, o):
-                    continue
-                a = E(t, m, o)
-                good = act_ok(a)
-                if m == "read" and loss_out(t, o):
-                    good = good and (a in ("retEmpty", "retEmptyBusy") or a.startswith("S:"))
-                if m == "read" and a == "retEmptyBusy" and not sets_loss(t, o):
-                    good = False
-                if not good:
-                    ok = False
-                    bad.append(("fresh", t, m, o, a))
-        for lm in ("read", "write"):
-            for lo in L.OUTCOMES:
-                if not (L.in_domain(t, lm, lo) and sets_loss(t, lo)):
-                    continue
-                for m in ("read", "write", "close"):
-                    for o in L.OUTCOMES:
-                        if not L.in_domain(t, m, o) or (m == "read" and o not in L.post_read(t, lm, lo)) or o == "none":
-                            continue
-                        a = A(t, lm, lo, m, o)
-                        good = act_ok(a)
-                        if m == "read" and loss_out(t, o):
-                            good = good and (a == "retEmpty" or a.startswith("S:"))
-                        if m == "read" and a == "retEmptyBusy":
-                            good = False
-                        if not good:
-                            ok = False
-                            bad.append(("after", t, lm, lo, m, o, a))
-        if not (E(t, "read", "none") == "S:notOpened" and E(t, "write", "none") == "S:notOpened" and E(t, "isalive", "none") == "retFalse"):
+        for c in T.ctrls(t):
+            for m in L.METHODS:
+                for o in L.OUTCOMES:
+                    if not L.in_domain(t, m, o):
+                        continue
+                    a = short(T.E(c, t, m, o))
+                    good = act_ok(a)
+                    if m == "read":
+                        good = good and (a in ("retData", "retEmpty", "retEmptyBusy") or a.startswith("S:"))
+                    if m == "read" and loss_out(t, o):
+                        good = good and (a in ("retEmpty", "retEmptyBusy") or a.startswith("S:"))
+                    if m == "read" and a == "retEmptyBusy" and not sets_loss(t, o):
+                        good = False
+                    if not good:
+                        ok = False
+                        bad.append(("fresh", t, m, o, a, c))
+            for lm in ("read", "write"):
+                for lo in L.OUTCOMES:
+                    if not (L.in_domain(t, lm, lo) and sets_loss(t, lo)):
+                        continue
+                    for m in ("read", "write", "close"):
+                        for o in L.OUTCOMES:
+                            if not L.in_domain(t, m, o) or (m == "read" and o not in L.post_read(t, lm, lo)) or o == "none":
+                                continue
+                            a = short(T.A(c, t, lm, lo, m, o))
+                            good = act_ok(a)
+                            if m == "read" and loss_out(t, o):
+                                good = good and (a == "retEmpty" or a.startswith("S:"))
+                            if m == "read" and a == "retEmptyBusy":
+                                good = False
+                            if not good:
+                                ok = False
+                                bad.append(("after", t, lm, lo, m, o, a, c))
+            if short(T.E(c, t, "write", "data")).startswith(("S:", "raw:")):
+                ok = False
+                bad.append(("write-data-raises", t, c))
+        E0 = lambda m, o: short(T.E(0, t, m, o))
+        if not (E0("read", "none") == "S:notOpened" and E0("write", "none") == "S:notOpened" and E0("isalive", "none") == "retFalse" and act_ok(E0("close", "none"))):
             ok = False
-            bad.append(("none", t, E(t, "read", "none"), E(t, "write", "none"), E(t, "isalive", "none")))
+            bad.append(("none", t, E0("read", "none"), E0("write", "none"), E0("isalive", "none")))
         if ok:
             total.append(t)
         aok = True
-        for lm in ("read", "write"):
-            for lo in L.OUTCOMES:
-                if L.in_domain(t, lm, lo) and sets_loss(t, lo):
-                    if short(alive.get((t, lm, lo), "na")) != "retFalse":
-                        aok = False
-                        bad.append(("alive", t, lm, lo, alive.get((t, lm, lo), "na")))
+        for c in T.ctrls(t):
+            for lm in ("read", "write"):
+                for lo in L.OUTCOMES:
+                    if L.in_domain(t, lm, lo) and sets_loss(t, lo):
+                        if short(T.AL(c, t, lm, lo)) != "retFalse":
+                            aok = False
+                            bad.append(("alive", t, lm, lo, T.AL(c, t, lm, lo), c))
         if aok:
             alive_total.append(t)
     return total, alive_total, bad
@@ -120,21 +150,33 @@ def compute_total(L, emap, after, alive):
 
 def observe():
     from harness import libfakes as L
-    return L, L.observe_map(), L.observe_after(), L.observe_alive_after()
+    return (L, L.observe_map(), L.observe_after(), L.observe_alive_after()) + tuple(L.observe_ctrl())
+
+
+NOUT = 17
 
 
 def key3(L, t, m, o):
-    return (L.TRANSPORTS.index(t) * 8 + L.METHODS.index(m)) * 13 + L.OUTCOMES.index(o)
+    return (L.TRANSPORTS.index(t) * 8 + L.METHODS.index(m)) * NOUT + L.OUTCOMES.index(o)
 
 
 def key5(L, t, lm, lo, m, o):
-    return (key3(L, t, lm, lo) * 8 + L.METHODS.index(m)) * 13 + L.OUTCOMES.index(o)
+    return (key3(L, t, lm, lo) * 8 + L.METHODS.index(m)) * NOUT + L.OUTCOMES.index(o)
+
+
+def keyC3(L, c, t, m, o):
+    return c * 1000000 + key3(L, t, m, o)
+
+
+def keyC5(L, c, t, lm, lo, m, o):
+    return c * 1000000 + key5(L, t, lm, lo, m, o)
 
 
 def generate(obs=None):
-    L, emap, after, alive = obs or observe()
+    L, emap, after, alive, emapC, afterC, aliveC = obs or observe()
     from harness.libfakes import short
-    if len(L.TRANSPORTS) != 6 or len(L.METHODS) != 8 or len(L.OUTCOMES) != 13:
+    T = Tables(L, emap, after, alive, emapC, afterC, aliveC)
+    if len(L.TRANSPORTS) != 6 or len(L.METHODS) != 8 or len(L.OUTCOMES) != NOUT or len(L.CTRLS) != 3 or key5(L, "sim", "close", "moreIacVerb", "close", "moreIacVerb") >= 1000000:
         raise TranslateError("vocabulary of libfakes and ScrapliModel/LossTypes.lean differ")
     body = HEADER.format(src="the behaviour of the real transports under boundary injection (tools/harness/libfakes.py, dynamic extraction) "
                              "+ libfakes.DOMAIN (hand-written library behaviour)")
@@ -156,19 +198,25 @@ def generate(obs=None):
             names = " ".join(f"{o}={emap[(t, m, o)].split(':')[-1]}" for o in L.OUTCOMES if (t, m, o) in emap and emap[(t, m, o)].startswith("raw:") and L.in_domain(t, m, o))
             body += f"    [{row}]{',' if m != L.METHODS[-1] else ''}  -- {m}{'  RAW: ' + names if names else ''}\n"
         body += f"  ]{',' if t != L.TRANSPORTS[-1] else ''}\n"
-    body += "]\n\n/-- OBSERVED: entries of the post-loss table that differ from errTbl: key5 t lossMethod lossOutcome method outcome -/\n"
+    body += "]\n\n/-- OBSERVED (Telnet transports): entries that differ from errTbl when a control sequence is pending: keyC3 ctrl t method outcome -/\n"
+    body += "def errDevC : List (Nat × Act) := [\n"
+    devc = [(k, v) for k, v in sorted(emapC.items(), key=lambda kv: keyC3(L, *kv[0])) if short(v) != short(emap.get(k[1:], "na"))]
+    body += _rows([(f"({keyC3(L, *k)}, {lean_act(v)})", f"{k[1]} [{L.CTRLS[k[0]]}]: {k[2]}×{k[3]}") for k, v in devc])
+    body += "]\n\n/-- OBSERVED: entries of the post-loss table that differ from the loss-free one: keyC5 ctrl t lossMethod lossOutcome method outcome -/\n"
     body += "def afterDev : List (Nat × Act) := [\n"
-    dev = [(k, v) for k, v in sorted(after.items(), key=lambda kv: key5(L, *kv[0])) if short(v) != short(emap.get((k[0], k[3], k[4]), "na"))]
-    body += _rows([(f"({key5(L, *k)}, {lean_act(v)})", f"{k[0]}: after {k[1]}×{k[2]}, {k[3]}×{k[4]}") for k, v in dev])
+    allafter = [((0,) + k, v) for k, v in after.items()] + list(afterC.items())
+    dev = [(k, v) for k, v in sorted(allafter, key=lambda kv: keyC5(L, *kv[0])) if short(v) != short(T.E(k[0], k[1], k[4], k[5]))]
+    body += _rows([(f"({keyC5(L, *k)}, {lean_act(v)})", f"{k[1]} [{L.CTRLS[k[0]]}]: after {k[2]}×{k[3]}, {k[4]}×{k[5]}") for k, v in dev])
     body += "]\n\n/-- which outcomes a read can have once the loss (key3 t lossMethod lossOutcome) was delivered; head = the library's default (hand-written: libfakes.post_read) -/\n"
     body += "def postReadTbl : List (Nat × List Outcome) := [\n"
     pr = [(t, lm, lo) for t in L.TRANSPORTS for lm in ("read", "write") for lo in L.OUTCOMES if L.is_loss(t, lm, lo)]
     body += _rows([(f"({key3(L, *k)}, [{', '.join('.' + o for o in L.post_read(*k))}])", f"{k[0]}: after {k[1]}×{k[2]}") for k in pr])
-    body += "]\n\n/-- OBSERVED: isalive() right after a detectable loss: key3 t lossMethod lossOutcome -/\n"
+    body += "]\n\n/-- OBSERVED: isalive() right after a detectable loss: keyC3 ctrl t lossMethod lossOutcome -/\n"
     body += "def aliveAfterTbl : List (Nat × Act) := [\n"
-    body += _rows([(f"({key3(L, *k)}, {lean_act(v)})", f"{k[0]}: after {k[1]}×{k[2]}") for k, v in sorted(alive.items(), key=lambda kv: key3(L, *kv[0]))])
+    allalive = [((0,) + k, v) for k, v in alive.items()] + list(aliveC.items())
+    body += _rows([(f"({keyC3(L, *k)}, {lean_act(v)})", f"{k[1]} [{L.CTRLS[k[0]]}]: after {k[2]}×{k[3]}") for k, v in sorted(allalive, key=lambda kv: keyC3(L, *kv[0]))])
     body += "]\n\n"
-    total, alive_total, bad = compute_total(L, emap, after, alive)
+    total, alive_total, bad = compute_total(L, emap, after, alive, emapC, afterC, aliveC)
     body += "/-- transports whose generated error map is total into the allowed scrapli classes (re-decided in ScrapliProps/C08.lean) -/\n"
     body += "def totalTransports : List Transport := [" + ", ".join("." + t for t in total) + "]\n"
     body += "/-- transports that report isalive() = False after every detectable loss -/\n"
@@ -176,7 +224,7 @@ def generate(obs=None):
     body += "/-- one in-domain witness (method, outcome) per transport that is NOT total: an obligation left undischarged -/\n"
     wit = {}
     for b in bad:
-        if b[0] == "fresh" and b[1] not in wit and b[1] not in total:
+        if b[0] == "fresh" and b[5] == 0 and b[1] not in wit and b[1] not in total:
             wit[b[1]] = (b[2], b[3])
     for b in bad:
         if b[0] == "after" and b[1] not in wit and b[1] not in total:
